@@ -683,6 +683,59 @@ def gather_normal_form(v):
     return v
 
 
+def expand_properties(e, prog: Program, cls: Class, depth: int = 0):
+    """`self.<p>` where <p> is a property of the class with one returning path and no refusal is that path's value (the
+    accessor may read the stored vectors directly or through the property: the same value)."""
+    if e is None or not hasattr(e, "free_symbols") or depth > 3:
+        return e
+    cache = prog.__dict__.setdefault("_prop_values", {})
+    sub = {}
+    for sym in e.free_symbols:
+        nm = sym.name
+        if not nm.startswith("self.") or "." in nm[5:]:
+            continue
+        m = cls.find_method(nm[5:])
+        if m is None or "property" not in m.decorators:
+            continue
+        key = m.qualname
+        if key not in cache:
+            try:
+                lv = _leaves(prog, m, cls)
+                cache[key] = lv[0].value if (len(lv) == 1 and lv[0].exit == "return" and lv[0].value is not None) else None
+            except AnalysisError:
+                cache[key] = None
+        if cache[key] is not None and sym not in cache[key].free_symbols:
+            sub[sym] = cache[key]
+    # self.<accessor>(args) with one returning path: that path's value for these arguments
+    from sympy.core.function import AppliedUndef
+    for app in e.atoms(AppliedUndef):
+        nm = app.func.__name__
+        if not app.args or getattr(app.args[0], "name", None) != "self":
+            continue
+        m = cls.find_method(nm)
+        if m is None or m.decorators or m.kind != "method":
+            continue
+        key = m.qualname
+        if key not in cache:
+            try:
+                lv = [l for l in _leaves(prog, m, cls)]
+                cache[key] = lv[0].value if (len(lv) == 1 and lv[0].exit == "return" and lv[0].value is not None) else None
+            except AnalysisError:
+                cache[key] = None
+        val = cache[key]
+        if val is None or len(app.args) - 1 > len(m.params) - 1 or val.has(app.func):
+            continue
+        names = list(m.params[1:])
+        given = dict(zip(names, app.args[1:]))
+        if len(given) != len(names):
+            continue            # defaults are not guessed
+        by_name = {x.name: x for x in val.free_symbols}
+        sub[app] = val.xreplace({by_name[k]: v for k, v in given.items() if k in by_name})
+    if not sub:
+        return e
+    return expand_properties(e.xreplace(sub), prog, cls, depth + 1)
+
+
 def check_accessor_table(ck: Checker, prog: Program, cls: Class, rule: str, table: Dict[str, List[str]], guards: Optional[Dict[str, Dict[str, str]]] = None):
     """Every returning path of each accessor yields one of the expected expressions (all listed ones present); `guards`
     optionally names, per accessor, the condition under which an expected expression must be returned
@@ -696,11 +749,11 @@ def check_accessor_table(ck: Checker, prog: Program, cls: Class, rule: str, tabl
             continue
         leaves = _leaves(prog, m, cls)
         rets = [l for l in leaves if l.exit == "return"]
-        want_exprs = [_canon_counts(expect(prog, m, w, cls)) for w in wants]
+        want_exprs = [expand_properties(_canon_counts(expect(prog, m, w, cls)), prog, cls) for w in wants]
         used = set()
         g = guards.get(name, {})
         for l in rets:
-            got = _canon_counts(l.value) if l.value is not None else None
+            got = expand_properties(_canon_counts(l.value), prog, cls) if l.value is not None else None
             hit = None
             for i, w in enumerate(want_exprs):
                 if got is not None and equal(gather_normal_form(got), gather_normal_form(w)):
